@@ -318,6 +318,9 @@ struct MacroDetector {
     G.add(VALUE >>
               (term(Token::RUN), ID, term(Token::WITH), ARGS, term(Token::END)),
           default_accumulator);
+    // a call without arguments is a value too (VARGS may be empty)
+    G.add(VALUE >> (term(Token::RUN), ID, term(Token::WITH), term(Token::END)),
+          default_accumulator);
     G.add(ARGS >> VALUE, default_accumulator);
     G.add(ARGS >> (ARGS, term(Token::ARGSEP), VALUE), default_accumulator);
     G.add(P >> (P, term(Token::PROGSEP), STATEMENT), default_accumulator);
